@@ -70,6 +70,24 @@ def run(rep, tier, seed):
             if n is None: lines.append(f'round {ct} {operand_tok(o)} 0 0')
             else: lines.append(f'round_at {ct} {operand_tok(o)} {n} 0 0')
             meta.append((d, o, n, got))
+            # two-step: re-round the Float an earlier rounding returned (it carries that rounding's context and
+            # flags) under a sibling context of the same format — the flags must describe THIS rounding
+            if n is None and R.random() < 0.12 and d['fam'] not in ('real',):
+                try:
+                    y = ctx.round(operand_obj(o))
+                except Exception:
+                    continue
+                d2 = dict(d)
+                if R.random() < 0.5: d2['rm'] = R.choice(RMS)
+                try:
+                    ctx2 = ctx_obj(d2)
+                    got2 = show_res(ctx2.round(y))
+                except Exception as e:
+                    got2 = 'err ' + err_name(e)
+                o2 = ('F', fv_of_obj(y))
+                lines.append(f'round {ctx_tok(d2)} {operand_tok(o2)} 0 0')
+                meta.append((d2, o2, None, got2))
+                rep.count('two-step (operand = result of an earlier rounding)')
     model = run_driver(lines)
     rep.cov['evaluations'] = len(lines)
     drift = 0
